@@ -14,18 +14,19 @@ CXXFLAGS = ["-std=c++17", "-O1", "-g", "-fsanitize=address,undefined", "-fno-san
             "-DBITSERIALIZER_VERIF", "-I" + os.path.join(REPO, "include"), "-I" + os.path.join(REPO, "src"),
             "-I" + os.path.join(VERIF, "harness")]
 
-FORBIDDEN = re.compile(r"\b(Admitted|admit|Axiom|Axioms|Parameter|Parameters|Conjecture|Conjectures|Hypothesis|Hypotheses|Variable|Variables)\b|Unset\s+Guard|bypass_check|type-in-type|impredicative-set|Admit\s+Obligations|Unset\s+Positivity|Unset\s+Universe")
+FORBIDDEN = re.compile(r"\b(Admitted|admit|give_up|Abort|Axiom|Axioms|Parameter|Parameters|Conjecture|Conjectures|Hypothesis|Hypotheses|Variable|Variables|Context)\b|Unset\s+Guard|bypass_check|type-in-type|impredicative-set|Admit\s+Obligations|Unset\s+Positivity|Unset\s+Universe")
 
-ALLOWED_AXIOMS = {
-    # named in DESIGN.md 2.5; only stdlib axioms, only where a library brings them in
+# Per property: the standard-library axioms its theorems may depend on (named in DESIGN.md 2.5 and in the property's trusted
+# base).  Only C04 uses any: Flocq's binary32/binary64 are built on the standard library's real numbers.  Every other
+# property's theorems must print "Closed under the global context".
+REALS_AXIOMS = {
     "Coq.Logic.FunctionalExtensionality.functional_extensionality_dep",
     "Coq.Logic.Classical_Prop.classic",
     "Coq.Reals.ClassicalDedekindReals.sig_forall_dec",
     "Coq.Reals.ClassicalDedekindReals.sig_not_dec",
-    "Coq.Logic.ProofIrrelevance.proof_irrelevance",
-    "Coq.Logic.JMeq.JMeq_eq",
-    "Coq.Logic.Eqdep.Eq_rect_eq.eq_rect_eq",
 }
+ALLOWED_AXIOMS_BY_PROP = {"C04": REALS_AXIOMS}
+ALLOWED_AXIOMS = set()        # set by coq_properties(prop) for the property being checked
 
 
 def axiom_allowed(a):
@@ -166,16 +167,19 @@ def grep_gate():
         while prev != txt:
             prev = txt
             txt = re.sub(r"\(\*[^*(]*(?:\*(?!\))[^*(]*|\((?!\*)[^*(]*)*\*\)", " ", txt)
-        in_section = 0
+        sections = []           # names of the open Sections (an `End X` of a Module does not close a Section)
         for i, line in enumerate(txt.split("\n"), 1):
-            if re.match(r"\s*Section\b", line):
-                in_section += 1
-            if re.match(r"\s*End\b", line) and in_section:
-                in_section -= 1
+            ms = re.match(r"\s*Section\s+([A-Za-z0-9_']+)", line)
+            if ms:
+                sections.append(ms.group(1))
+            me = re.match(r"\s*End\s+([A-Za-z0-9_']+)", line)
+            if me and sections and sections[-1] == me.group(1):
+                sections.pop()
+            in_section = len(sections)
             m = FORBIDDEN.search(line)
             if m:
                 w = m.group(0)
-                if w in ("Variable", "Variables", "Hypothesis", "Hypotheses") and in_section:
+                if w in ("Variable", "Variables", "Hypothesis", "Hypotheses", "Context") and in_section:
                     continue  # Section-local, discharged at End
                 bad.append("%s:%d: %s" % (f, i, line.strip()[:120]))
     return bad
@@ -187,7 +191,9 @@ def coq_properties(prop):
     fn = "Properties_%s.v" % prop
     src = open(os.path.join(COQ, fn)).read()
     names = re.findall(r"^\s*Print Assumptions\s+([A-Za-z0-9_']+)\s*\.", src, re.M)
-    thms = re.findall(r"^\s*(?:Theorem|Example|Corollary)\s+([A-Za-z0-9_']+)", src, re.M)
+    thms = re.findall(r"^\s*(?:Theorem|Example|Corollary|Lemma|Fact|Remark|Proposition)\s+([A-Za-z0-9_']+)", src, re.M)
+    global ALLOWED_AXIOMS
+    ALLOWED_AXIOMS = set(ALLOWED_AXIOMS_BY_PROP.get(prop[:3], set()))
     ok_make, mlog = coq_make(["Properties_%s.vo" % prop])
     p = subprocess.run(["timeout", "1800", "coqc", "-Q", ".", "BS", fn], cwd=COQ, capture_output=True, text=True)
     out = p.stdout
